@@ -1,6 +1,10 @@
 package main
 
+import "time"
+
 func init() {
-	reg("C15", propCfg{Pkg: "./props/c15", RaceThorough: true, RaceIsViolation: true, Fuzz: map[string]string{"FuzzC15Parse": "total"}, Rule: "generated inputs vs validity predicates and a compositional/round-trip oracle over structural dumps",
+	// QuickTimeout: the quick tier needs about 40 s of wall time on an idle machine (3 to 4 minutes of CPU); on a machine shared with a dozen
+	// other checks it has been seen to take 5 minutes, which the default budget turns into "inconclusive"
+	reg("C15", propCfg{Pkg: "./props/c15", QuickTimeout: 15 * time.Minute, RaceThorough: true, RaceIsViolation: true, Fuzz: map[string]string{"FuzzC15Parse": "total"}, Rule: "generated inputs vs validity predicates and a compositional/round-trip oracle over structural dumps",
 		Assumptions: assume("columns are counted in runes (the scanner works on []rune)", "'terminates' is checked as 'returns within 20 s' for inputs of at most a few KiB", "structural equality is decided on a reflection dump of the tree including positions (internal/dump)")})
 }
